@@ -47,6 +47,8 @@ fn auth_data(ctx: &mut Ctx) -> AuthenticatorData {
 }
 
 /// one generated message of the given schema, serialised by the real code
+pub fn message_pub(ctx: &mut Ctx, schema: &str) -> Vec<u8> { message(ctx, schema) }
+pub fn auth_data_pub(ctx: &mut Ctx) -> AuthenticatorData { auth_data(ctx) }
 fn message(ctx: &mut Ctx, schema: &str) -> Vec<u8> {
     match schema {
         "makeCredentialRequest" => ser(&make_credential::Request {
